@@ -452,6 +452,20 @@ def intrinsic(name):
     if op == 'pow': return lambda E, fr, args: math.pow(args[0], args[1])
     return None
 
+# ---- std::ostringstream used only for diagnostics text: a sink. operator<< returns its stream, str() returns an empty string.
+# (Only installed for jobs that ask for it - E.stream_sink - because formatting is the subject of other properties.)
+def m_sink_ret_stream(E, fr, args): return args[0]
+def m_sink_str(E, fr, args):
+    sret = cint(E, args[0], 'sret')
+    E.store(sret, 8, sret + 16); E.store(sret + 8, 8, 0); E.store(sret + 16, 1, 0)
+    return None
+def stream_sink_model(name):
+    if 'basic_ostringstream' in name and re.search(r'(C[12]|D[012])E', name): return m_nop
+    if 'basic_ostringstream' in name and name.endswith('3strEv'): return m_sink_str
+    if name.startswith('_ZNSolsE') or name.startswith('_ZNSo9_M_insert') or name.startswith('_ZSt16__ostream_insert') or name.startswith('_ZStlsI'): return m_sink_ret_stream
+    if name.startswith('_ZNSt8ios_base') or name.startswith('_ZNSt9basic_iosIcSt11char_traitsIcEE'): return m_nop
+    return None
+
 def pattern_model(name):
     if name.startswith('llvm.memcpy.') or name.startswith('llvm.memmove.'): return m_memcpy
     if name.startswith('llvm.memset.'): return m_memset
@@ -555,5 +569,7 @@ def install(E):
     M['_ZNSt10filesystem7__cxx114path14_M_split_cmptsEv'] = m_fs_split_cmpts
     E.model_patterns = [(_Pat(), None)]
     def mbp(name):
-        return pattern_model(name)
+        r = pattern_model(name)
+        if r is None and getattr(E, 'stream_sink', False): r = stream_sink_model(name)
+        return r
     E.model_by_pattern = mbp
